@@ -30,7 +30,7 @@ import term_image.renderable._types as RT  # noqa: E402
 from term_image.geometry import Size  # noqa: E402
 from term_image.padding import AlignedPadding, ExactPadding  # noqa: E402
 from term_image.render import RenderIterator  # noqa: E402
-from term_image.renderable import Frame, FrameCount, Renderable, RenderData, Seek  # noqa: E402
+from term_image.renderable import Frame, FrameCount, Renderable, RenderArgs, RenderData, Seek  # noqa: E402
 
 TERM_SIZE = os.terminal_size((80, 30))
 RR.get_terminal_size = lambda: TERM_SIZE
@@ -178,15 +178,23 @@ class R(Renderable):
 class Out(io.StringIO):
     """a non-tty stdout whose k-th write() may raise"""
 
-    def __init__(self, fault=None):
+    def __init__(self, fault=None, cfault=None):
         super().__init__()
         self.fault = fault
+        self.cfault = cfault  # the write("\n") of draw's own clean-up
         self.n = 0
+        self.nc = 0
 
     def isatty(self):
         return False
 
     def write(self, s):
+        if s == "\n":  # only draw()'s `finally` writes a bare newline
+            k = self.nc
+            self.nc += 1
+            if self.cfault and self.cfault[0] == k:
+                raise self.cfault[1]("injected")
+            return 1
         k = self.n
         self.n += 1
         if self.fault and self.fault[0] == k:
@@ -256,8 +264,9 @@ class History:
             self.owner[i] = "c"
         elif n == "fromData":
             d, fin = int(op[1]), op[2] == "1"
+            args = {"none": None, "own": RenderArgs(R), "ancestor": RenderArgs(Renderable)}[op[5]]
             it = RenderIterator._from_render_data_(
-                r, self.held[d], None, loops=int(op[3]), cache=cache_arg(op[4]), finalize=fin)
+                r, self.held[d], args, loops=int(op[3]), cache=cache_arg(op[4]), finalize=fin)
             self.it[len(self.rec.iters) - 1] = it
             if fin:
                 self.owner[d] = "l"
@@ -291,7 +300,7 @@ class History:
         rec.resolve_fault = None
         rec.n_resolve = 0
         rec.by = "l"
-        wfault = None
+        wfault = cwfault = None
         self.r.size = Size(2, 2)
         if fault:
             tgt, k, exc = fault
@@ -299,6 +308,8 @@ class History:
                 rec.render_fault = [k, EXC[exc]]
             elif tgt == "write":
                 wfault = [k, EXC[exc]]
+            elif tgt == "cwrite":
+                cwfault = [k, EXC[exc]]
             elif tgt == "resolve":
                 rec.resolve_fault = [k, EXC[exc]]
             elif tgt == "validate":
@@ -306,7 +317,7 @@ class History:
                 # k = 1 taller (second comparison, made only when scrolling is not allowed)
                 self.r.size = Size(200, 2) if k == 0 else Size(2, 200)
         n_before = rec.n_objs
-        out = Out(wfault)
+        out = Out(wfault, cwfault)
         so = sys.stdout
         sys.stdout = out
         outcome = "ok"
@@ -408,6 +419,7 @@ def run_real(fc, ops):
 
 RENDER_EXC = ["Boom", "StopIteration", "KeyboardInterrupt", "AttributeError"]
 WRITE_EXC = ["Boom", "KeyboardInterrupt"]
+ARGS_KINDS = ["none", "own", "ancestor"]
 CACHES = ["off", "on", "upto 1", "upto 2", "upto 3", "upto 100", "upto 0"]
 
 
@@ -429,6 +441,8 @@ def draw_terminates(fc, animate, loops, cache, fault):
     tgt, k, _ = fault
     if tgt == "write":
         return True
+    if tgt == "cwrite":
+        return False  # the clean-up is reached only when the animation has ended
     if tgt in ("validate", "resolve"):
         return k == 0  # draw validates animations (both comparisons), but only k = 0 is certain to fire
     cached = fc != 0 and (cache == "on" or (cache.startswith("upto") and fc <= int(cache[5:])))
@@ -441,7 +455,7 @@ def exhaustive(max_fc):
         faults = [None] + [("render", k, e) for k in range(0, 2 * max(fc, 1) + 2) for e in RENDER_EXC]
         wfaults = [("write", k, e) for k in range(0, 4 * max(fc, 1) + 4) for e in WRITE_EXC]
         vfault = [("validate", 0, "RenderSizeOutofRangeError"), ("validate", 1, "RenderSizeOutofRangeError"),
-                  ("resolve", 0, "Boom")]
+                  ("resolve", 0, "Boom"), ("cwrite", 0, "Boom"), ("cwrite", 0, "KeyboardInterrupt")]
         for f in faults:
             yield mk_case(fc, [(("render",), f)], "x-render")
         if fc in (1, 3):
@@ -465,6 +479,34 @@ def exhaustive(max_fc):
                             yield mk_case(fc, [(op, f)], f"x-draw-{'anim' if animate == '1' and fc != 1 else 'still'}-"
                                           + (f[0] if f else "nofault"))
         if fc != 1:
+            # `_from_render_data_` with every flavour of render args, on fresh data and on data that an
+            # earlier owning iteration (exhausted / closed / failed) or the caller's finalize() has finalized
+            n1 = max(fc, 1)
+            for how in ("fresh", "exhausted", "closed", "failed", "cfin", "kept-open"):
+                for args1 in ARGS_KINDS:
+                    for args2 in ARGS_KINDS:
+                        for fin2 in ("0", "1"):
+                            ops = [(("mkData", "1"), None)]
+                            if how in ("exhausted", "closed", "failed", "kept-open"):
+                                ops.append((("fromData", "0", "1" if how != "kept-open" else "0", "1", "off", args1), None))
+                                if how == "exhausted":
+                                    ops += [(("next", "0"), None)] * n1
+                                    ops.append((("next", "0"), ("render", 0, "StopIteration") if fc == 0 else None))
+                                elif how == "closed":
+                                    ops += [(("next", "0"), None), (("close", "0"), None)]
+                                elif how == "failed":
+                                    ops.append((("next", "0"), ("render", 0, "Boom")))
+                                else:
+                                    ops += [(("next", "0"), None), (("close", "0"), None)]  # caller keeps the data
+                            elif how == "cfin":
+                                ops.append((("cfin", "0"), None))
+                            i2 = "0" if how in ("fresh", "cfin") else "1"
+                            ops.append((("fromData", "0", fin2, "2", "off", args2), None))
+                            ops += [(("next", i2), None), (("next", i2), None), (("seek", i2, "0"), None),
+                                    (("dropIter", i2), None), (("cdrop", "0"), None)]
+                            if i2 == "1":
+                                ops.append((("dropIter", "0"), None))
+                            yield mk_case(fc, ops, f"x-fromData-{how}")
             # iterate to the end / close / drop at every position, fault at every render
             for loops in (1, 2):
                 n = max(fc, 1) * loops
@@ -515,7 +557,8 @@ def random_history(rng):
                          rng.choice(RENDER_EXC))
             if kind == "draw" and rng.random() < 0.3:
                 fault = rng.choice([("validate", rng.randrange(2), "RenderSizeOutofRangeError"), ("resolve", 0, "Boom"),
-                                    ("write", rng.randrange(0, 9), rng.choice(WRITE_EXC))])
+                                    ("write", rng.randrange(0, 9), rng.choice(WRITE_EXC)),
+                                    ("cwrite", 0, rng.choice(WRITE_EXC))])
             if kind == "initRender":
                 op = ("initRender",) + tuple(str(rng.randrange(2)) for _ in range(5))
                 fault = rng.choice([None, None, ("validate", rng.randrange(2), "RenderSizeOutofRangeError"),
@@ -533,7 +576,7 @@ def random_history(rng):
             elif kind == "mkData":
                 op = ("mkData", str(int(rng.random() < 0.85)))
             elif kind == "fromData":
-                op = ("fromData", dd, str(rng.randrange(2)), str(loops), cache)
+                op = ("fromData", dd, str(rng.randrange(2)), str(loops), cache, rng.choice(ARGS_KINDS))
             elif kind == "seek":
                 op = ("seek", ii, str(rng.randrange(0, max(fc, 1) + 1)))
             elif kind in ("cfin", "cdrop"):
@@ -563,7 +606,7 @@ class C10(Property):
         "iterator's `_render_data` are gone (model: `dropRefs`)",
         "the caller does not finalize, or hand to a second iterator, data that an open iterator is using",
     ]
-    quick_cases = 14500
+    quick_cases = 16000
     thorough_cases = 150000
 
     def gen_constants(self):
@@ -707,6 +750,15 @@ def check_log(fc, ops, outs):
                         return Failure(f"not-prompt/{where}/flags={''.join(op[1:])}",
                                        f"op #{n}: `_init_render_(finalize=True)` returned/raised ({outcome}) without "
                                        f"having finalized its render data (object {e[1:]}); events: {evs}")
+            # draw() finalizes its data itself before it returns or raises; the exceptions of the unchanged code:
+            # a failure inside `_init_render_(finalize=False)` (padding resolution, size validation), which
+            # precedes draw's `try`, and a failure of the clean-up's own write("\n"), which precedes finalize()
+            if op[0] == "draw" and not (fault and fault[0] in ("validate", "resolve", "cwrite")):
+                for e in filter(None, evs.split(",")):
+                    if e[0] == "c" and f"f{e[1:]}:l" not in evs.split(","):
+                        return Failure(f"not-prompt/{where}/animate={op[1]}",
+                                       f"op #{n}: draw() returned/raised ({outcome}) without having finalized its "
+                                       f"render data (object {e[1:]}); events: {evs}")
             # data of finished operations: finalized exactly once by now
             if op[0] in ("render", "draw", "initRender"):
                 for e in filter(None, evs.split(",")):
